@@ -21,8 +21,8 @@ def runInstant (op : String) (args : List String) : String :=
     | some a, some b => b01 (leP a b) | _, _ => "bad-op"
   | "i.toepoch", [a] => match inst? a with
     | some i => toString (instToEpoch i) | none => "bad-op"
-  | "i.frepoch", [t] => match t.toNat? with
-    | some t => showInst (epochToInst t) | none => "bad-op"
+  | "i.frepoch", [t] => match t.toInt? with
+    | some t => showInst (epochToInstI t) | none => "bad-op"
   | "i.tstamp", [a] => match inst? a with
     | some i => toString (instToTstamp i) | none => "bad-op"
   | _, _ => "bad-op"
